@@ -168,6 +168,11 @@ class FsRun:
             if b[0] is not None:
                 ev.update(has=True, first=int(b[0]) - cc.B, last=int(b[1]) - cc.B)
                 lo, hi = cc.bound[0] + cc.B - 3, cc.bound[-1] + cc.B + 3
+                self.npass = getattr(self, "npass", 0) + 1
+                if self.npass % 3 == 0:
+                    # every third pass asks for a range of far more than a thousand file periods around the recording
+                    wide = 1500 * max(cc.bound[i + 1] - cc.bound[i] for i in range(len(cc.bound) - 1))
+                    lo, hi = max(0, lo - wide), hi + wide
                 r = rd.read(lo, hi, "ch")
                 blocks, ds, fs, bad = [], [], [], 0
                 for k, arr in sorted(r.items(), key=lambda kv: int(kv[0])):
